@@ -170,6 +170,7 @@ def check_cartesian_flow(ctx):
     last = defs[-1] if defs else None
     okn = last is not None and U(last.value) == f"grid.normalize_point(grid.transform({posname}, 'cell', 'grid'))" and fv.dominates(last, st)
     loops = [s for s in fv.statements() if isinstance(s, ast.For) and "periodic" in U(s.iter)]
+    loops = [s for s in loops if not any(s is not o and any(x is s for x in ast.walk(o)) for o in loops)]  # outermost only
     okn = okn and all(fv.dominates(lp, last) for lp in loops)
     ctx.decide(bool(okn), "FLOW", site + ":wrap", (fi, last) if last is not None else fi,
                "after all merging, positions are converted cell→grid and wrapped into the box by normalize_point before the droplets are built",
@@ -342,7 +343,58 @@ def check_merge(ctx):
         elif isinstance(s, ast.Assign) and U(s.targets[0]) == mean_name and s is not ms:
             mods.append((s, mean_name))
     shifts = [(s, b) for s, b in mods if isinstance(s, ast.AugAssign) and isinstance(s.op, ast.Sub) and U(s.value) == f"grid.shape[{axv}]" and U(s.target.slice) == axv]
-    oks = len(shifts) == 1 and len(mods) == 1
+    # ---- alignment of the *other* periodic axes: a cluster that was merged across another periodic boundary before may be
+    # given relative to another periodic image; the operand is moved to the image closest to the other operand
+    # (x[a] -= round((x[a] - y[a]) / shape[a]) * shape[a] for every periodic a != ax) before the mean is taken
+    def _is_align(s):
+        if not (isinstance(s, ast.AugAssign) and isinstance(s.op, ast.Sub) and isinstance(s.target, ast.Subscript) and isinstance(s.target.slice, ast.Name)):
+            return None
+        av = s.target.slice.id
+        if av == axv:
+            return None
+        inner = si.enclosing(s, (ast.For,))
+        if inner is None or inner[0] is lp or not isinstance(inner[0].target, ast.Name) or inner[0].target.id != av:
+            return None
+        if U(inner[0].iter) not in ("np.flatnonzero(grid.periodic)", "np.nonzero(grid.periodic)[0]", "np.where(grid.periodic)[0]"):
+            return None
+        g = canon_guards(si, s, within=inner[0])
+        if g != canon_want((f"{av} == {axv}", False)) and g != canon_want((f"{axv} == {av}", False)):
+            return None
+        tb = U(res(s.target.value, s))
+        val = fv.expand(s.value, s, stop=("positions", "volumes", "labels", "grid", axv, av) + tuple(side), allow_mutated=True, depth=10)
+        cv = Converter()
+        try:
+            got = cv.conv(val)
+        except NotAlgebraic:
+            return None
+        for other in (p1, p2):
+            if other == tb:
+                continue
+            for fn in ("np.round", "np.rint", "round"):
+                want_src = f"{fn}(({tb}[{av}] - {other}[{av}]) / grid.shape[{av}]) * grid.shape[{av}]"
+                try:
+                    if got == cv.conv(ast.parse(want_src, mode="eval").body):
+                        return (tb, other, inner[0])
+                except (NotAlgebraic, SyntaxError):
+                    continue
+        return None
+
+    from ..astutil import canon_guards, canon_want
+
+    aligns = []
+    for s_, b_ in mods:
+        r_ = _is_align(s_)
+        if r_ is not None:
+            aligns.append((s_, r_))
+    align_stmts = {id(s_) for s_, _ in aligns}
+    rest = [(s_, b_) for s_, b_ in mods if id(s_) not in align_stmts]
+    oks = len(shifts) == 1 and len(rest) == 1
+    ok_img = bool(aligns) and all(fv.dominates(r_[2], ms) for _s, r_ in aligns)
+    ctx.decide(ok_img, "MERGE", site + ":image", (fi, aligns[0][0]) if aligns else (fi, ms),
+               "before averaging, the operand is moved to the periodic image closest to the other operand along every other periodic axis",
+               "the two cluster positions are averaged without aligning their periodic images along the *other* periodic axes: a cluster that was already merged across another periodic boundary "
+               "is given relative to a shifted image there, so a droplet cut by two periodic boundaries (e.g. radius 2 at (14.9, 1.1) on a periodic 16×16 grid) is located a period-fraction away from its centre")
+    mods = rest
     high_side = False
     if oks:
         sh, base = shifts[0]
